@@ -136,7 +136,9 @@ def run_one(item, seed, tid):
                     if wide:
                         weights[rng.choice(P, P // 3, replace=False)] = 0.0
                     po = Pn.WeightedL1(alpha, weights)
-                so = S.ProxNewton(tol=tol, fit_intercept=args["fit_intercept"]) if d == "Poisson" else \
+                # (Logistic through prox-Newton, as SparseLogisticRegression does: AndersonCD's damped Logistic
+                #  intercept step -- known finding -- needs thousands of iterations on the wide designs)
+                so = S.ProxNewton(tol=tol, fit_intercept=args["fit_intercept"]) if d in ("Poisson", "Logistic") else \
                     S.AndersonCD(tol=tol, fit_intercept=args["fit_intercept"], **({"max_iter": 400} if wide else {}))
                 est = skglm.GeneralizedLinearEstimator(dfo, po, so)
             Xs = sparse.csc_matrix(X) if args["storage"] == "csc" else X
